@@ -6,6 +6,7 @@ byte strings and property blocks are interned to small integers, operations are 
   W  write starts     p:…  one packet of it        K / F  write ok / failed
   a:<type>:<pid>:<rcs>:<props>:<wf>   acknowledgement read
   ok:<op>:<rcs>:<props>   exchange completed without error        x:<op>  any other completion
+  Q  the client was cancelled / disconnected and the execution context has run out of work
 """
 import mqtt_ref as ref
 import client_mon as M
@@ -117,6 +118,8 @@ def abstract(s):
                     toks.append(f"ok:{num(name)}:{rcs}:{props_id(intern, M.plist_parse(df.get('props', '-')))}")
                 else:
                     toks.append(f"x:{num(name)}")
+    # cancel() was called / async_disconnect finished and the harness drained the execution context: nothing may be left outstanding
+    if getattr(s, "ended", False) and not s.crashed: toks.append("Q")
     return toks, skipped
 
 
